@@ -8,14 +8,14 @@ import (
 
 // dObs is everything a caller can observe from one processing of a project.
 type dObs struct {
-	code      int
-	msg       string
-	index     uint
-	badType   string
-	lenV      uint
-	example   string
-	used      []string
-	astOK     bool
+	code    int
+	msg     string
+	index   uint
+	badType string
+	lenV    uint
+	example string
+	used    []string
+	astOK   bool
 }
 
 func dObserve(s *JSchema) dObs {
@@ -56,10 +56,11 @@ func dTypes() (root string, ts []dType) {
 	d1 := string([]byte{zzverif.Digit("d1")})
 	d2 := string([]byte{zzverif.Digit("d2")})
 	d3 := string([]byte{zzverif.Digit("d3")})
-	root = `{"a": @a, "b": @b, "c": @c}`
+	// names that differ only in letter case must not be confused or tie
+	root = `{"a": @item, "b": @Item, "c": @c}`
 	ts = []dType{
-		{"@a", d1 + ` // {min: 5}`},              // broken iff d1 < 5 (constraint violation)
-		{"@b", `"xy" // {minLength: ` + d2 + `}`}, // broken iff d2 > 2 (string length violation)
+		{"@item", d1 + ` // {min: 5}`},                                         // broken iff d1 < 5 (constraint violation)
+		{"@Item", `"xy" // {minLength: ` + d2 + `}`},                           // broken iff d2 > 2 (string length violation)
 		{"@c", d3 + ` // {or: [{type: "integer", min: 5}, {type: "string"}]}`}, // broken iff d3 < 5, through an unnamed rule-set type
 	}
 	return
@@ -155,5 +156,62 @@ func VerifC09_EnumRule() {
 		zzverif.Reach("accepted")
 	} else {
 		zzverif.Reach("rejected")
+	}
+}
+
+// VerifC09_SeveralOffendingRules: a node that carries several rules its type
+// does not allow: which one the diagnostic names must not depend on map order.
+func VerifC09_SeveralOffendingRules() {
+	zzverif.Expect("rejected")
+	typ := []string{"email", "uri", "date", "uuid", "datetime"}[zzverif.IntRange("type", 0, 4)]
+	val := map[string]string{"email": "a@b.cc", "uri": "http://a.b/c", "date": "2021-01-08", "uuid": "550e8400-e29b-41d4-a716-446655440000", "datetime": "2021-01-08T12:50:45+06:00"}[typ]
+	rules := [][]string{{"minLength: 1", "maxLength: 99"}, {"maxLength: 99", "minLength: 1"}, {"minLength: 1", "regex: \".\""}, {"regex: \".\"", "maxLength: 99", "minLength: 1"}}[zzverif.IntRange("rules", 0, 3)]
+	text := `"` + val + `" // {type: "` + typ + `"`
+	for _, r := range rules {
+		text += ", " + r
+	}
+	text += "}"
+	other := zzverif.IntRange("order", 1, 3)
+	zzverif.SetMapOrder(0)
+	o1 := dObserve(New("s", text))
+	zzverif.SetMapOrder(other)
+	o2 := dObserve(New("s", text))
+	zzverif.SetMapOrder(0)
+	zzverif.Assert(dSame(o1, o2), "same diagnostic under every map iteration order")
+	if o1.code != 0 {
+		zzverif.Reach("rejected")
+	}
+}
+
+// VerifC09_RepeatedCalls: calling the same operation again on the same object
+// gives the same answer - three times in a row, also when Example() fails
+// inside a referenced type.
+func VerifC09_RepeatedCalls() {
+	zzverif.Expect("example-ok", "example-fails")
+	d := string([]byte{zzverif.Digit("d")})
+	var s *JSchema
+	if zzverif.Bool("failing") {
+		s = New("root", `{"x": @A, "y": `+d+`}`)
+		_ = s.AddType("@A", New("@A", `{} // {or: [{type: "object"}, {type: "string"}]}`))
+	} else {
+		s = New("root", `{"x": @A, "y": [`+d+`, @A]}`)
+		_ = s.AddType("@A", New("@A", `{"r": `+d+`}`))
+	}
+	c1 := vErrCode(s.Check())
+	type res struct {
+		ex   string
+		code int
+	}
+	var rs []res
+	for i := 0; i < 3; i++ {
+		ex, err := s.Example()
+		rs = append(rs, res{string(ex), int(vErrCode(err))})
+		zzverif.Assert(vErrCode(s.Check()) == c1, "Check() repeats its answer")
+	}
+	zzverif.Assert(rs[0] == rs[1] && rs[1] == rs[2], "Example() repeats its answer on the same object")
+	if rs[0].code == 0 {
+		zzverif.Reach("example-ok")
+	} else {
+		zzverif.Reach("example-fails")
 	}
 }
